@@ -52,6 +52,8 @@ SecRule ARGS_GET:c_rmr "@streq 1" "id:23,phase:1,pass,nolog,ctl:ruleRemoveById=1
 SecRule ARGS_GET:c_rmt "@streq 1" "id:24,phase:1,pass,nolog,ctl:ruleRemoveTargetById=102;ARGS_GET:t"
 SecRule ARGS_GET:c_rmtag "@streq 1" "id:25,phase:1,pass,nolog,ctl:ruleRemoveByTag=tg"
 SecRule ARGS_GET:c_fresp "@streq 1" "id:26,phase:1,pass,nolog,ctl:forceResponseBodyVariable=On"
+SecRule ARGS_GET:c_partsm "@streq 1" "id:27,phase:1,pass,nolog,ctl:auditLogParts=-K"
+SecRule ARGS_GET:c_partsh "@streq 1" "id:28,phase:1,pass,nolog,ctl:auditLogParts=-B"
 SecRule ARGS_GET:d1 "@streq 1" "id:30,phase:1,deny,status:401,log,auditlog"
 SecRule ARGS_GET:sk1 "@streq 1" "id:31,phase:1,pass,nolog,skip:3"
 SecRule ARGS_GET:ska1 "@streq 1" "id:32,phase:1,pass,nolog,skipAfter:NO_SUCH_MARKER"
@@ -79,7 +81,7 @@ SecAction "id:139,phase:4,pass,nolog,setvar:tx.end4=1"
 SecAction "id:150,phase:5,pass,nolog,verifdump:p5"
 `
 
-var c05Steers = []string{"cap", "setx", "ce_do", "c_audoff", "c_parts", "c_rba", "c_rbl", "c_sba", "c_sbl", "c_json", "c_force", "c_rm", "c_rmr", "c_rmt", "c_rmtag", "c_fresp",
+var c05Steers = []string{"cap", "setx", "ce_do", "c_audoff", "c_parts", "c_rba", "c_rbl", "c_sba", "c_sbl", "c_json", "c_force", "c_rm", "c_rmr", "c_rmt", "c_rmtag", "c_fresp", "c_partsm", "c_partsh",
 	"d1", "sk1", "ska1", "al1", "alr1", "alp1", "t", "u", "d2", "sk2", "ska2", "d3", "al3", "d4"}
 
 type c05Tx struct {
